@@ -107,3 +107,95 @@ SPECS['C04'] = dict(
         + parts(twin('exit-after-work', 'harness.c04', 'h_after_twin', 'a run in which the worker exits exists'), 4)
     ),
 )
+
+WORKER_FUNCS = ['billiard.pool.Worker.workloop (statement-instrumented from current source)', 'Worker.__call__', 'Worker._do_exit',
+                'Worker._make_child_methods', 'Worker._make_protected_receive', 'Worker._make_recv_method',
+                'Worker._ensure_messages_consumed', 'billiard.common._shutdown_cleanup', 'billiard.pool.soft_timeout_sighandler',
+                'billiard.einfo.ExceptionInfo', 'billiard.pool.MaybeEncodingError']
+WORKER_ASSUME = [
+    'worker-side stubs (harness/workerh.py): request/result/syn queues as scripted FIFOs, os._exit raising a private exception, '
+    'time.sleep and mem_rss recorders, after_fork (closing descriptors, installing real signal handlers) skipped',
+    'a signal handler runs between two statements of workloop or inside a stub call (symbolic crash point); '
+    'the instrumentation is validated against the original function on concrete scripts every run',
+    'traceback text formatting replaced by a constant (C12 owns it)',
+]
+
+SPECS['C03'] = dict(
+    level='other',
+    explanation='Solver-based: CrossHair executes the real Worker.workloop over scripted queues with symbolic task outcomes, quota, '
+                'SYN answers (ACK/NACK after silence) and consumed-counter, and checks the message grammar from the statement; the '
+                'parent side (accept callback before result callback, owner recorded, NACK for a cancelled job) runs the real '
+                'ResultHandler/ApplyResult code.',
+    functions=WORKER_FUNCS + ['billiard.pool.ApplyResult._ack', 'ResultHandler on_ack/on_ready'],
+    bounds={'quick': '3 tasks per script, outcomes {return, raise Exception, raise BaseException, unserialisable}, quota 0..3, '
+                     'NACK/ACK per task after 0..2 silent polls', 'thorough': '4 tasks'},
+    outside=['real pipes and pickling of arbitrary results', 'more than 4 tasks per worker life'],
+    assumptions=WORKER_ASSUME,
+    trusted_base=TRUST,
+    obligations=[
+        smt('instrumentation-valid', 'harness.c03', 'v_instrumentation', 'instrumented workloop == original on concrete scripts', kind='validate'),
+        ch('worker-protocol', 'harness.c03', 'h_protocol', 'ACK(pid,time) before run, exactly one READY per job, quota, exit status, consumption guard',
+           timeout=(300, 1500)),
+        twin('worker-protocol', 'harness.c03', 'h_protocol_twin', 'a run ending with the recycle status exists'),
+        ch('worker-synack', 'harness.c03', 'h_synack', 'NACKed job never executed and not counted; ACKed job runs after the answer',
+           timeout=(300, 1500)),
+        twin('worker-synack', 'harness.c03', 'h_synack_twin', 'a run with a refused job exists'),
+    ],
+)
+
+TIMEOUT_FUNCS = ['billiard.pool.TimeoutHandler.handle_event', 'TimeoutHandler.handle_timeouts', 'TimeoutHandler.on_hard_timeout',
+                 'TimeoutHandler.on_soft_timeout', 'TimeoutHandler._trywaitkill', 'TimeoutHandler._process_by_pid',
+                 'ApplyResult.handle_timeout', 'Pool.apply_async (limit precedence)']
+
+_term = (parts(ch('worker-termination', 'harness.c03', 'h_termination', 'termination signal (any hooked number) delivered at any statement '
+                  'boundary of the work loop or inside any stub call: no task body starts afterwards, exit callback once, DEATH notice, '
+                  'exit with the handler status', timeout=(300, 1500)), 8)
+         + parts(twin('worker-termination', 'harness.c03', 'h_termination_twin', 'a run in which the signal is delivered exists'), 8))
+
+SPECS['C05'] = dict(
+    level='other',
+    explanation='Solver-based: CrossHair executes the real TimeoutHandler scan / hard-timeout / kill code and the real supervision code '
+                'in the stubbed process world with symbolic pool-level and per-job limits, clock advances, event order (scan, scan '
+                'pre-empted by the result handler, result handling, worker completion), TERM obedience and process-group leadership; '
+                'the worker side runs the real Worker.__call__/workloop with a termination signal at a symbolic crash point.',
+    functions=TIMEOUT_FUNCS + POOL_FUNCS[:16] + WORKER_FUNCS,
+    bounds={'quick': 'pool size 1..2; limits in [0,50] (0 = none); 3 events, each preceded by a clock advance in [0,105], last one a scan; '
+                     'other job kinds map/imap/imap_unordered in the cache; worker: 2 tasks, crash point <= 90',
+            'thorough': '4 events; worker: 3 tasks'},
+    outside=['that the kernel delivers the signals and the process disappears', 'float clocks', 'more than 2 workers'],
+    assumptions=POOL_ASSUME + WORKER_ASSUME + ['a worker that obeys TERM is gone within the 0.1 s wait; one that does not is killed by KILL'],
+    trusted_base=TRUST,
+    obligations=(
+        parts(ch('hard-limit', 'harness.c05', 'h_hard', 'job fails with TimeLimitExceeded(H) at the first scan with now >= accept+H, '
+                 'H = job limit else pool limit; TERM then KILL if it lingers; nothing before; late result ignored; pool restored and '
+                 'serves a later job', timeout=(300, 1500)), 8)
+        + parts(twin('hard-limit', 'harness.c05', 'h_hard_twin', 'a run reaching the expiry branch exists'), 8)
+        + parts(ch('other-kinds', 'harness.c05', 'h_others', 'map/imap/imap_unordered jobs on a pool with default limits: every scan '
+                   'returns, no signal, never timed out, job completes', timeout=(200, 900)), 6)
+        + parts(twin('other-kinds', 'harness.c05', 'h_others_twin', 'the scans are reached'), 6)
+        + [smt('instrumentation-valid', 'harness.c03', 'v_instrumentation', 'instrumented workloop == original on concrete scripts', kind='validate')]
+        + _term
+    ),
+)
+
+SPECS['C06'] = dict(
+    level='other',
+    explanation='Solver-based: CrossHair executes the real scan / soft-timeout code in the stubbed process world with symbolic pool and '
+                'job soft limits, a job hard limit, clock advances and event order including a scan pre-empted by the result handler; '
+                'the worker side delivers the real soft_timeout_sighandler at a symbolic crash point inside the real work loop.',
+    functions=TIMEOUT_FUNCS + WORKER_FUNCS,
+    bounds=SPECS['C05']['bounds'],
+    outside=['signal delivery by the kernel', 'a soft signal that reaches the worker after its task returned (race inherent to signals)'],
+    assumptions=POOL_ASSUME + WORKER_ASSUME,
+    trusted_base=TRUST,
+    obligations=(
+        parts(ch('soft-limit', 'harness.c05', 'h_soft', 'SIG_SOFT_TIMEOUT sent exactly once, at the first scan with now >= accept+S and before '
+                 'the hard path took the job, S = job soft limit else pool default, callback soft=True/timeout=S; never for a job whose '
+                 'result was processed (also when the result handler runs between snapshot and check)', timeout=(300, 1500)), 16)
+        + parts(twin('soft-limit', 'harness.c05', 'h_soft_twin', 'a run reaching the soft-expiry branch exists'), 16)
+        + parts(ch('worker-soft', 'harness.c03', 'h_soft', 'handler runs inside task j: SoftTimeLimitExceeded seen by task j only; a task '
+                   'that catches it has its value delivered; other jobs unaffected', timeout=(300, 1500)), 8)
+        + parts(twin('worker-soft', 'harness.c03', 'h_soft_twin', 'a run with the signal inside a task exists'), 8)
+        + [smt('instrumentation-valid', 'harness.c03', 'v_instrumentation', 'instrumented workloop == original on concrete scripts', kind='validate')]
+    ),
+)
